@@ -12,6 +12,8 @@ def main():
     subprocess.run([sys.executable, os.path.join(ROOT, "lib", "genmanifest.py")], check=False)
     props = []
     for p in sorted(glob.glob(os.path.join(ROOT, "props", "C*.json"))):
+        if p.endswith(".findings.json"):
+            continue
         d = json.load(open(p))
         if d.get("status") == "ready":
             props.append(d)
